@@ -45,6 +45,9 @@ OF OR IN CONNECTION WITH THE SOFTWARE OR THE USE OR OTHER DEALINGS IN THE SOFTWA
 **************************************************************************************************/
 
 #include "CoreSMTSolver.h"
+#ifdef OPENSMT_VERIF_HOOKS
+#include <common/VerifHooks.h>
+#endif
 
 #include <api/GlobalStop.h>
 #include <common/InternalException.h>
@@ -230,6 +233,9 @@ bool CoreSMTSolver::addOriginalClause_(vec<Lit> && ps, pair<CRef, CRef> & inOutC
 {
     assert(decisionLevel() == 0);
     inOutCRefs = {CRef_Undef, CRef_Undef};
+#ifdef OPENSMT_VERIF_HOOKS
+    verif::clause(verif::Tracer::get().derivedScope ? "D" : "I", ps);
+#endif
     if (!isOK()) { return false; }
     bool logProof = this->logsResolutionProof();
     // Check if clause is satisfied and remove false/duplicate literals:
@@ -1450,6 +1456,9 @@ lbool CoreSMTSolver::search(int nof_conflicts)
             }
             learnt_clause.clear();
             analyze(confl, learnt_clause, backtrack_level);
+#ifdef OPENSMT_VERIF_HOOKS
+            verif::clause("L", learnt_clause);
+#endif
 
             cancelUntil(backtrack_level);
 
@@ -1527,6 +1536,9 @@ lbool CoreSMTSolver::search(int nof_conflicts)
                     newDecisionLevel();
                 } else if (value(p) == l_False) {
                     analyzeFinal(~p, conflict);
+#ifdef OPENSMT_VERIF_HOOKS
+                    verif::clause("A", conflict);
+#endif
                     int max = 0;
                     for (Lit q : conflict) {
                         if (!sign(q)) {
